@@ -75,6 +75,13 @@ CLAIMED["C03"] = ("DESIGN.md §4 C03",
     "no allocation is sized by an unbounded peer-claimed length; every loop cycle consumes input; the count of a bare read() is used. Known findings: claimed-length "
     "allocations (5 sites), unbounded config recursion. Wall-clock bounds and allocation inside std are not decided.")
 
+CLAIMED["C09"] = ("DESIGN.md §4 C09",
+    "R-TABLE (Ok/Err mapping), R-PANIC over the proxy call graph (shared engine with C03), R-MUSTPASS (socket timeouts before use), R-FLOW (forwarded bytes, mutation inventory of the relayed clone), R-LOCK (guard released before the network call), CFG-order rule for the rotation index",
+    "Decides: proxy_request maps Ok to the upstream response and Err to 502; no site on the call graphs of proxy_request/proxy_handler can panic (clock-driven logging/date "
+    "code cut out and listed); the upstream socket gets read and write timeouts from the caller's timeout before it is written or read; the relayed bytes are the "
+    "serialised clone of the client's request whose only mutations are the stripped URI and X-Forwarded-For = origin address; the load-balancer guard is dropped before the "
+    "request; round-robin indexes with the pre-increment value and wraps at len. Timing itself is not decided.")
+
 NOT_YET = {}
 
 NOT_APPLICABLE = {
